@@ -718,6 +718,7 @@ int main(int argc, char **argv)
 	g_progress = mmap(NULL, 4096, PROT_READ | PROT_WRITE, MAP_SHARED | MAP_ANONYMOUS, -1, 0);
 	g_progress[0] = 0;  /* index of the line at which the next child starts */
 	g_progress[1] = 0;  /* execution counter */
+	int fork_each = getenv("OF_DRIVER_FORK_EACH") != NULL;
 	int timeout_s = getenv("OF_DRIVER_EXEC_TIMEOUT") ? atoi(getenv("OF_DRIVER_EXEC_TIMEOUT")) : 300;
 	while ((size_t)g_progress[0] < nl) {
 		pid_t pid = fork();
@@ -735,6 +736,7 @@ int main(int argc, char **argv)
 					jb_printf("{\"e\":\"Reset\",\"x\":%ld}\n", g_exec); jb_flush();
 					g_exec++; g_progress[1] = g_exec; g_progress[0] = (long)i + 1;
 					g_foreign_free = 0; g_nblk = 0; memset(S, 0, sizeof S);
+					if (fork_each) _exit(0);   /* next execution starts from the pristine parent image */
 					alarm(timeout_s);
 					continue;
 				}
@@ -746,6 +748,9 @@ int main(int argc, char **argv)
 			_exit(0);
 		}
 		int wst = 0; waitpid(pid, &wst, 0);
+		if ((size_t)g_progress[0] < nl && WIFEXITED(wst) && WEXITSTATUS(wst) == 0) {
+			continue;   /* fork-per-execution mode: the child finished its execution */
+		}
 		if ((size_t)g_progress[0] < nl) {
 			/* child died inside an execution: skip to the line after the next reset */
 			if (!(WIFEXITED(wst) && (WEXITSTATUS(wst) == 42 || WEXITSTATUS(wst) == 43))) {
